@@ -442,6 +442,56 @@ fn main() {
             known_typed.insert(format!("{}::{}", parts[0].trim_start_matches('[').trim_end_matches(']').rsplit(';').next().unwrap(), parts[parts.len() - 1]));
         }
     }
+    // `Type::name` of every function the models and the overlay text define inside an `impl .. Type ..` block (a crude scan:
+    // an indented `fn` belongs to the last `impl` header above it)
+    {
+        let mut texts = vec![text.clone()];
+        for inc in u.includes.iter() {
+            let p = if inc.starts_with('/') { inc.clone() } else { format!("{}/{}", verif, inc) };
+            if let Ok(t) = std::fs::read_to_string(&p) {
+                texts.push(t);
+            }
+        }
+        for tx in texts.iter() {
+            let mut cur: Option<String> = None;
+            for line in tx.lines() {
+                let t = line.trim_start();
+                let indented = line.len() != t.len();
+                let t2 = t.trim_start_matches("pub ").trim_start_matches("unsafe ");
+                if t2.starts_with("impl") && (t2[4..].starts_with('<') || t2[4..].starts_with(' ')) {
+                    // impl<..> [Trait for] Type<..>
+                    let mut rest = &t2[4..];
+                    if rest.starts_with('<') {
+                        let mut depth = 0;
+                        let mut end = 0;
+                        for (i, c) in rest.char_indices() {
+                            if c == '<' { depth += 1; }
+                            if c == '>' { depth -= 1; if depth == 0 { end = i + 1; break; } }
+                        }
+                        rest = &rest[end..];
+                    }
+                    let rest = rest.trim();
+                    let ty_part = match rest.find(" for ") { Some(i) => &rest[i + 5..], None => rest };
+                    let ty_part = ty_part.trim().rsplit("::").next().unwrap_or("");
+                    let name: String = ty_part.chars().take_while(|c| c.is_alphanumeric() || *c == '_').collect();
+                    cur = if name.is_empty() { None } else { Some(name) };
+                    continue;
+                }
+                if !indented && !t.is_empty() && !t.starts_with("//") && !t.starts_with('}') && !t.starts_with('#') {
+                    cur = None;
+                }
+                if let (true, Some(ty)) = (indented, &cur) {
+                    if let Some(pos) = t.find("fn ") {
+                        let before_ok = pos == 0 || t[..pos].ends_with(' ');
+                        let name: String = t[pos + 3..].chars().take_while(|c| c.is_alphanumeric() || *c == '_').collect();
+                        if before_ok && !name.is_empty() && !t.starts_with("//") {
+                            known_typed.insert(format!("{}::{}", ty, name));
+                        }
+                    }
+                }
+            }
+        }
+    }
     let mut directive_words: BTreeSet<String> = BTreeSet::new();
     for line in text.lines() {
         if line.starts_with(|c: char| c.is_alphabetic()) && !line.starts_with("fn ") && !line.starts_with("struct ") && !line.starts_with("enum ") {
@@ -459,10 +509,50 @@ fn main() {
         // knows (a helper introduced by an extract-method refactoring) is replaced by the helper's body
         DesugarLetElse.visit_block_mut(&mut ff.block);
         {
-            let mut inl = inline::Inliner { file, known: &known_names, known_typed: &known_typed, directive_words: &directive_words, field_types: &t.field_types, impl_ty: ff.impl_ty.clone(), depth: 0, counter: 0, notes: vec![] };
+            let mut all_files: Vec<&File> = vec![file];
+            for (a, f) in files.iter() {
+                if *a != fs.src {
+                    all_files.push(f);
+                }
+            }
+            let mut inl = inline::Inliner { files: all_files, known: &known_names, known_typed: &known_typed, directive_words: &directive_words, field_types: &t.field_types, impl_ty: ff.impl_ty.clone(), depth: 0, counter: 0, notes: vec![] };
             inl.visit_block_mut(&mut ff.block);
             for n in inl.notes.iter() {
                 eprintln!("vx: note: {}::{}: {}", fs.src, fs.path, n);
+            }
+        }
+        // module-level `const NAME: T = E;` of the function's file that the body mentions (and nothing in the unit defines):
+        // bound at the top of the body, `E` is extracted like any other expression
+        {
+            let mut used: BTreeSet<String> = BTreeSet::new();
+            fn walk(ts: proc_macro2::TokenStream, out: &mut BTreeSet<String>) {
+                for tt in ts {
+                    match tt {
+                        proc_macro2::TokenTree::Ident(i) => {
+                            out.insert(i.to_string());
+                        }
+                        proc_macro2::TokenTree::Group(g) => walk(g.stream(), out),
+                        _ => {}
+                    }
+                }
+            }
+            walk(ff.block.to_token_stream(), &mut used);
+            let mut pre: Vec<Stmt> = vec![];
+            for it in file.items.iter() {
+                if let Item::Const(c) = it {
+                    let n = c.ident.to_string();
+                    if used.contains(&n) && !known_names.contains(&n) && attrs_cfg(&c.attrs).unwrap_or(true) {
+                        let id = &c.ident;
+                        let ty = &c.ty;
+                        let e = &c.expr;
+                        pre.push(parse_quote!(let #id: #ty = #e;));
+                        eprintln!("vx: note: {}::{}: module constant `{}` bound in the body", fs.src, fs.path, n);
+                    }
+                }
+            }
+            if !pre.is_empty() {
+                pre.extend(ff.block.stmts.drain(..));
+                ff.block.stmts = pre;
             }
         }
         if let Some(k) = fs.closure {
